@@ -267,6 +267,32 @@ def register(R):
           f'forall(lambda t: {G("reader(result, t)", "r_hi(reader(result, t))")} == {G("reader(result, t + 1)", "r_lo(reader(result, t + 1))")}, 0, nreaders(result) - 1)'],
       bounded='bounded_merged', note='iteration = the readers tile the whole concatenation [0, len)'))
 
+  # ---- round-robin shards of any iterable: a shard of a shard is the composed residue class -------------------------
+  R.add(Contract(
+      f'{IO}::ShardedIterable.shard', P, types=dict(self='ShardedIterable', shard_index='int', num_shards='int'), ret='ShardedIterable',
+      requires=['self._shard_state.num_shards >= 1', 'num_shards >= 1'],
+      ensures=['result._shard_state.shard_index == self._shard_state.shard_index + self._shard_state.num_shards * shard_index',
+               'result._shard_state.num_shards == self._shard_state.num_shards * num_shards',
+               'result.data is self.data', 'result._shard_state.start_index == 0'],
+      bounded='bounded_sharded_iterable',
+      note='shard i of n of the shard (a mod m) is the residue class (a + m*i mod m*n); the lemmas below show that this IS '
+           '"every n-th element of the parent shard, starting with its i-th" (the D3 defect re-sharded the root instead)'))
+  # Euclidean division is unique (the one non-linear fact; the composition lemmas below take instances of it as hypotheses)
+  R.lemma('euclidean-division-is-unique', P, dict(x='int', d='int', q='int', r='int'),
+          ['d > 0', 'x == d * q + r', '0 <= r', 'r < d'], ['x // d == q and x % d == r'])
+  RR = dict(p='int', a='int', m='int', i='int', n='int')
+  rr_pre = ['0 <= a', 'a < m', '0 <= i', 'i < n', 'p >= 0']
+  uniq = lambda x, d, q, r: f'implies({d} > 0 and {x} == ({d}) * ({q}) + ({r}) and 0 <= ({r}) and ({r}) < ({d}), {x} % ({d}) == ({r}) and {x} // ({d}) == ({q}))'
+  R.lemma('element-of-the-sub-shard-is-in-the-composed-residue-class', P, dict(RR, j='int'),
+          rr_pre + ['p == a + m * j', 'j >= 0', 'j % n == i',                 # p is the j-th element of the parent shard and j = i (mod n)
+                    uniq('p', 'm * n', 'j // n', 'a + m * i')],
+          ['p % (m * n) == a + m * i'],
+          note='hypothesis = instance of euclidean-division-is-unique')
+  R.lemma('composed-residue-class-is-the-sub-shard', P, dict(RR, q='int'),
+          rr_pre + ['q >= 0', 'p == (a + m * i) + (m * n) * q', uniq('p', 'm', 'i + n * q', 'a'), uniq('i + n * q', 'n', 'q', 'i')],
+          ['p % m == a', '((p - a) // m) % n == i'],
+          note='conversely: such a p lies in the parent shard and is its (i + n*q)-th element; hypotheses = instances of the uniqueness lemma')
+
   # ---- partition lemmas over the contract's spec functions only ---------------------------
   tys = dict(s='int', e='int', i='int', k='int')
   pre = ['s <= e', 'k >= 1', '0 <= i < k']
